@@ -90,6 +90,7 @@ def ioKind : Rs.IoKind → ZipVerif.IoKind
   | .InvalidInput => .invalidInput
   | .UnexpectedEof => .unexpectedEof
   | .WriteZero => .writeZero
+  | .BrokenPipe => .brokenPipe
 
 namespace L
 
